@@ -610,6 +610,12 @@ func (g *G) aer() *state.AppExecResult {
 	if a.VMState == vmstate.Fault {
 		a.FaultException = "fault " + string(rune('a'+g.r.Intn(26)))
 	}
+	if g.r.Chance(1, 4) { // ledger configured with SaveInvocations
+		for n := 1 + g.r.Intn(2); n > 0; n-- {
+			args, _ := stackitem.Serialize(stackitem.NewArray([]stackitem.Item{stackitem.NewBool(true), stackitem.NewByteArray(g.r.Bytes(3))}))
+			a.Invocations = append(a.Invocations, *state.NewContractInvocation(g.u160(), "m"+string(printable(g.r, g.r.Intn(6))), args, 2))
+		}
+	}
 	return a
 }
 
